@@ -41,15 +41,25 @@ def rotations_2d():
 
 
 # ------------------------------------------------------------------------------------ rods
-def make_rod(n_elems, taper, bent, rot=None, planar=False, seed=0):
+def make_rod(n_elems, taper, bent, rot=None, planar=False, seed=0, deform=True):
+    """Straight rod; with deform=True it is bent / rotated / twisted right away, otherwise call
+    ``deform_rod`` later (e.g. after a forcing grid has been constructed on the straight rod)."""
     import elastica as ea
-    from elastica.rod.cosserat_rod import _compute_geometry_from_state
 
     base_radius = 0.05 * (np.linspace(1.0, 0.35, n_elems) if taper else np.ones(n_elems))
     rod = ea.CosseratRod.straight_rod(
         n_elements=n_elems, start=np.array([0.3, 0.4, 0.0 if planar else 0.5]), direction=np.array([1.0, 0.0, 0.0]), normal=np.array([0.0, 1.0, 0.0]),
         base_length=0.6, base_radius=base_radius, density=1e3, youngs_modulus=1e6, shear_modulus=1e6 / 1.5,
     )
+    if deform:
+        deform_rod(rod, bent, rot, planar, seed)
+    return rod
+
+
+def deform_rod(rod, bent, rot=None, planar=False, seed=0):
+    from elastica.rod.cosserat_rod import _compute_geometry_from_state
+
+    n_elems = rod.n_elems
     k = np.arange(n_elems + 1)
     if bent:
         rod.position_collection[1] += 0.03 * np.sin(1.3 * k + 0.2 + seed)
@@ -124,13 +134,19 @@ def rod_grid_is_planar(kind):
 RIGID = ["cylinder2d", "cylinder3d", "sphere", "plane"]
 
 
-def make_rigid(kind, rot, origin, n_points=None):
+def make_rigid(kind, rot, origin, n_points=None, late_pose=True):
     """Returns (body, forcing_grid). The director matrix of the body is set to ``rot`` applied to the
-    construction frame (rows = d1, d2, d3)."""
+    construction frame (rows = d1, d2, d3).  With late_pose (default) the body and its forcing grid
+    are constructed in the reference pose at a different location and only THEN moved/rotated to the
+    requested pose (a body state changes after its grid was built; nothing may stay cached)."""
     import elastica as ea
     import sopht.simulator as sps
 
     origin = np.asarray(origin, dtype=float)
+    target_rot, target_origin = rot, origin
+    if late_pose:
+        rot = np.eye(3)
+        origin = origin + np.array([0.05, -0.03, 0.02 if kind != "cylinder2d" else 0.0])
     if kind == "cylinder2d":
         body = ea.Cylinder(start=origin - np.array([0, 0, 0.25]), direction=np.array([0.0, 0.0, 1.0]), normal=np.array([1.0, 0.0, 0.0]), base_length=0.5, base_radius=0.12, density=1e3)
         body.director_collection[:, :, 0] = body.director_collection[:, :, 0] @ rot.T
@@ -149,6 +165,9 @@ def make_rigid(kind, rot, origin, n_points=None):
         grid = sps.RectangularPlaneForcingGrid(grid_dim=3, rigid_body=body, num_forcing_points_along_length=n_points or 4)
     else:
         raise KeyError(kind)
+    if late_pose:
+        body.director_collection[:, :, 0] = body.director_collection[:, :, 0] @ target_rot.T
+        body.position_collection[:, 0] += target_origin - origin
     grid.compute_lag_grid_position_field()
     grid.compute_lag_grid_velocity_field()
     return body, grid
